@@ -25,7 +25,9 @@ TOpen == /\ Is("open") /\ UNCHANGED <<ivs, uses>>
 TClose == /\ Is("close") /\ UNCHANGED <<ivs, uses>>
           /\ IF Get(state, Ev.h) = "open" THEN Ev.ok /\ ~Ev.lockAfter /\ owner' = 0 /\ state' = Put(state, Ev.h, "closed")
              ELSE ~Ev.ok /\ Ev.lockAfter = (owner # 0) /\ Ev.dirSame /\ UNCHANGED <<owner, state>>
-TUse == Is("use") /\ UNCHANGED <<owner, state, ivs, uses>> /\ Ev.ok = (Get(state, Ev.h) = "open")
+\* an operation on a handle succeeds iff the handle is open; on a closed handle it fails cleanly (no panic); an operation without
+\* a result (TriggerCompaction: void) must simply return
+TUse == Is("use") /\ UNCHANGED <<owner, state, ivs, uses>> /\ ~Ev.panic /\ (Ev.void \/ Ev.ok = (Get(state, Ev.h) = "open"))
 \* a second operating-system process: refused while owned, succeeds (and closes again) otherwise
 TProc == Is("proc") /\ UNCHANGED <<owner, state, ivs, uses>> /\ Ev.ok = (owner = 0) /\ (~Ev.ok => Ev.dirSame)
 
@@ -37,7 +39,8 @@ TCCloseRet == /\ Is("c.close") /\ UNCHANGED <<owner, state, uses>> /\ Ev.h \in D
               \* a Close that reports success is the first Close of a handle whose open succeeded
               /\ (Ev.ok => ivs[Ev.h].ok /\ ivs[Ev.h].cr = 0)
 \* operations are collected and judged at quiescence (a Close that made one fail may be logged after it)
-TCUseRet == Is("c.use") /\ UNCHANGED <<owner, state, ivs>> /\ uses' = Append(uses, [h |-> Ev.h, call |-> Ev.call, ret |-> Ev.ret, ok |-> Ev.ok])
+TCUseRet == /\ Is("c.use") /\ UNCHANGED <<owner, state, ivs>> /\ ~Ev.panic
+            /\ uses' = IF Ev.void THEN uses ELSE Append(uses, [h |-> Ev.h, call |-> Ev.call, ret |-> Ev.ret, ok |-> Ev.ok])
 Inf == 1000000000
 \* at quiescence: definite ownership intervals [or, cc] are pairwise disjoint; every refused open overlaps some possible ownership interval [oc, cr]
 TCEnd == /\ Is("c.end") /\ UNCHANGED <<owner, state, ivs, uses>>
